@@ -187,12 +187,17 @@ def _ctor(ck, prog):
           expected="self.len = len(<validated word>)", found=sorted(stored.get("len") or []), slot="self.len", where=f.loc())
     # (3) charge pattern derives from self.seq / self.len  (facts.charge_map already requires the loop shape)
     cmap, _, loop = facts.charge_map(prog)
-    reads = {unparse(n) for n in ast.walk(loop) if isinstance(n, ast.Attribute) and is_self_attr(n)}
+    reads = {unparse(n) for n in ast.walk(loop) if isinstance(n, ast.Attribute) and is_self_attr(n) and isinstance(n.ctx, ast.Load)}
     ck.ob("DEP", construct, reads <= {"self.seq", "self.len"} and "self.seq" in reads,
           expected="charge pattern built from self.seq over range(self.len)", found=sorted(reads), slot="chargePattern", where=f.loc(loop))
-    rng = unparse(loop.iter).replace(" ", "")
-    ck.ob("DEP", construct, rng in ("np.arange(0,self.len)", "range(0,self.len)", "range(self.len)", "np.arange(self.len)"),
-          expected="every position 0..len-1", found=rng, slot="chargePattern-domain", where=f.loc(loop))
+    if isinstance(loop, ast.For):
+        rng = unparse(loop.iter).replace(" ", "")
+        forms = ("np.arange(0,self.len)", "range(0,self.len)", "range(self.len)", "np.arange(self.len)", "self.seq", "range(len(self.seq))", "range(0,len(self.seq))", "enumerate(self.seq)")
+        ck.shape(rng in forms or rng.startswith(("range(", "np.arange(")), "Sequence.__init__: charge-pattern loop over a range or over the sequence", f.loc(loop))
+        ck.ob("DEP", construct, rng in forms, expected="every position 0..len-1", found=rng, slot="chargePattern-domain", where=f.loc(loop))
+    else:
+        # direct store of a per-residue expression: facts.charge_map accepted it only as an element-wise map of the whole of self.seq
+        ck.ob("DEP", construct, True, expected="every position 0..len-1", found="element-wise map of self.seq", slot="chargePattern-domain", where=f.loc(loop))
 
 
 def _verify_type(ck, prog):
